@@ -476,10 +476,11 @@ mod signals {
 			"status" => {
 				let raw = case["raw"].as_i64().unwrap() as i32;
 				let end = ProcessEnd::from(ExitStatus::from_raw(raw));
+				let back = |e: ProcessEnd| e.into_exitstatus().into_raw();
 				match end {
-					ProcessEnd::Success => json!({"d": "success", "v": 0}),
-					ProcessEnd::ExitError(c) => json!({"d": "error", "v": c.get()}),
-					ProcessEnd::ExitSignal(s) => json!({"d": "signal", "v": os_number(s)}),
+					ProcessEnd::Success => json!({"d": "success", "v": 0, "back": back(end)}),
+					ProcessEnd::ExitError(c) => json!({"d": "error", "v": c.get(), "back": back(end)}),
+					ProcessEnd::ExitSignal(s) => json!({"d": "signal", "v": os_number(s), "back": back(end)}),
 					ProcessEnd::ExitStop(c) => json!({"d": "stop", "v": c.get()}),
 					ProcessEnd::Exception(c) => json!({"d": "exception", "v": c.get()}),
 					ProcessEnd::Continued => json!({"d": "continued", "v": 0}),
